@@ -16,12 +16,16 @@ RULE = ("definitions with 0-3 controls (all occurring in some update, pairwise d
         "fixed (seed-independent) streams: fast-clock models (rates 2^20..2^30) stepped by dt between 2^-36 and 2^-18 that are not a whole "
         "number of nanoseconds / carry a residue below 1 ns, every dt-dependent term of order 1; "
         "roots of even powers (t*sqrt(t^2), (t^2)^(3/2), sqrt(a^2*b^2), of states and of controls) at every sign combination of the "
-        "symbols involved, with and without CSE")
+        "symbols involved, with and without CSE; "
+        "a walk over a lattice of whole-number points (states and controls in -3..3, two dt, one control stepped 1 -> 2^61 -> 1) on ONE "
+        "filter object, consecutive points differing in exactly one entry of (dt, state, control), every point checked against the exact oracle")
 NOTE = ["oracle: numpy-free exact recomputation G P Gᵀ + V M Vᵀ from sympy derivatives by name and the noise supplied by name",
         "purity is checked by bitwise comparison of the inputs' arrays before/after and of two consecutive calls",
         "stream=fast-clock-dt: the prediction is taken at the dt the caller passed, whatever its magnitude (exact oracle at the binary64 dt itself)",
         "stream=even-power-roots: sqrt(t^2) is |t|, not t - exact oracle at points where the radicand's base is negative (the points with a "
         "zero base, where the derivative does not exist, are not generated)",
+        "stream=lattice-walk: the prediction is taken at the point of THIS call, whatever the same filter was asked before - neighbouring "
+        "whole-number points (-1 next to -2, 1 next to 2^61, ...) are different points; polynomial models, exact oracle at every step",
         "random points at which the exact derivative is 0/0 (acos(cos(dt*s)) at dt = 0) are skipped and counted (oracle_undefined_point)"]
 PARTIAL = ["binary64 rounding (1e-9 relative tolerance)"]
 
@@ -318,6 +322,49 @@ def even_power_roots_at_negative_points(ctx):
                 _fixed_prediction(ctx, d, ekf, process, pt, eh.spd(rng, 2), "even-power-roots", {"cse": cse, "model": label})
 
 
+def lattice_walk_on_one_filter(ctx):
+    """a caller sweeping a grid of starting points: ONE filter object is asked for the prediction at a sequence of whole-number points
+    (states and controls in -3..3, dt 1/4 or 1/2, and one additive control stepped 1 -> 2^61 -> 1) in which consecutive points differ
+    in exactly one entry of (dt, state, control). Every answer is the model at the point of THAT call: f, G and V are re-evaluated
+    there (polynomial models whose state, process Jacobian and control Jacobian depend on every entry). Fixed inputs, private generator."""
+    import random
+    from fractions import Fraction as Fr
+    rng = random.Random(40419)
+    p, v, a, b, k = (sympy.Symbol(n) for n in ("pos_g", "vel_g", "acc_g", "bias_g", "gain_g"))
+    dt = sympy.Symbol("dt")
+    models = [
+        ("bilinear", {p: p + dt * v * p + dt * b, v: v + dt * a * p * k}),
+        ("driven-lag", {p: p + dt * v + a * p * dt * dt / 2 + dt * b, v: v + dt * (a - k * v * p)}),
+    ]
+    # the walk: (entry, successive values); every other entry keeps the value it has at that moment
+    legs = [("pos_g", [0, -1, -2, -3]), ("vel_g", [0, -1, -2, -1]), ("acc_g", [0, -1, -2, -3, -2, -1]), ("dt", [Fr(1, 2)]),
+            ("pos_g", [-2, -1, 0, 1, 2, 3]), ("vel_g", [-2, -3]), ("bias_g", [2 ** 61, 1, 0, -1, -2]), ("dt", [Fr(1, 4)]),
+            ("acc_g", [-2, -1]), ("bias_g", [-1, -2, -1])]
+    for label, sm in models:
+        d = gen.Definition(dt, [p, v], [a, b], [k], dict(sm), {})
+        process = {"acc_g": Fr(3, 4), "bias_g": Fr(5, 8)}
+        cal = {"gain_g": Fr(3, 2)}
+        for cse in (True, False):
+            try:
+                ekf = eh.compile_ekf(d, process, {}, cal, rng, cse=cse)
+            except Exception as e:
+                ctx.fail(f"compile-ekf-raises:{fk.exc_kind(e)}", f"compile_ekf refuses a valid definition: {e!r}"[:300], {"def": d.describe()})
+                continue
+            cur = {"dt": Fr(1, 4), "pos_g": Fr(1), "vel_g": Fr(1), "acc_g": Fr(1), "bias_g": Fr(1)}
+            walk = [dict(cur)]
+            for entry, values in legs:
+                for val in values:
+                    cur[entry] = Fr(val)
+                    walk.append(dict(cur))
+            P = eh.spd(rng, 2)
+            for step, c in enumerate(walk):
+                pt = {"dt": c["dt"], "cal": cal, "state": {"pos_g": c["pos_g"], "vel_g": c["vel_g"]},
+                      "control": {"acc_g": c["acc_g"], "bias_g": c["bias_g"]}}
+                if step:
+                    ctx.count("stream=lattice-walk:one-entry-changed")
+                _fixed_prediction(ctx, d, ekf, process, pt, P, "lattice-walk", {"cse": cse, "model": label, "step": step})
+
+
 def run(ctx):
     audit = core.lean_audit("C04")
     drv = core.Driver()
@@ -407,6 +454,7 @@ def run(ctx):
     # fixed streams last (they draw nothing from ctx.rng; the tolerance in force is the 1e-9 of non-transcendental definitions)
     fast_clock_time_steps(ctx)
     even_power_roots_at_negative_points(ctx)
+    lattice_walk_on_one_filter(ctx)
     return core.finish(ctx, audit, NOTE, RULE, PARTIAL)
 
 
